@@ -158,9 +158,18 @@ def newLabel (used : List String) (p : String) : Option (String × List String) 
     | some s => some (s, s :: used)
     | none => none
 
+/-- `HardwareConfig.comm_qubit_count` as the constructors set it: `NVHardwareConfig(k)` has one
+communication qubit (and k − 1 memory qubits), `GenericHardwareConfig(k)` has k -/
+def commQubits (kind : String) (count : Nat) : Nat := if kind == "nv" then 1 else count
+
+/-- the builder's `single_comm_qubit` — a function of the hardware configuration, used for BOTH the
+`wait_all` decision and the decision to append the one-pair-at-a-time move loop in `sdk_epr_keep`,
+and for the zeroed qubit-ids array -/
+def singleComm (kind : String) (count : Nat) : Bool := commQubits kind count == 1
+
 structure Config where
   api : String      -- "keep" | "rsp" | "measure"
-  nv : Bool         -- single communication qubit
+  nv : Bool         -- `singleComm` of the hardware configuration
   post : Bool       -- a post routine was given (recv_keep only)
   n : Nat
   expect : Bool
